@@ -476,8 +476,13 @@ def main(ctx, replay):
                     m2 = (rv2["method"].upper() + "\n" + p2 + "\n" + want_ts + "\n" + hashlib.sha256(b2).hexdigest()).encode("latin-1")
                     w2 = pyhmac.new(exp_secret.encode("latin-1"), m2, hashlib.sha256).hexdigest()
                     if rv2["header"].get(canon_key(sh), []) != [w2]:
-                        bad("redirect-hop-signature-not-recomputed",
-                            "the request that followed a 307 to %s carries signature %s, which is the HMAC for the original path %s, not for the path it was sent to" % (p2, rv2["header"].get(canon_key(sh)), raw_path))
+                        # reported on its own (own key), so that it can never mask - or be masked by - another problem of the same case
+                        C.report(ctx, "redirect-hop-signature-not-recomputed",
+                                 "the request that followed a 307 to %s carries signature %s, which is the HMAC for the original path %s, not for the path it was sent to" % (p2, rv2["header"].get(canon_key(sh)), raw_path),
+                                 {"kind": "request", "case": {k: v for k, v in c.items()},
+                                  "observed": {"received": [{"method": x["method"], "request_uri": x["request_uri"],
+                                                             "signing_headers": {k: v for k, v in x["header"].items() if k in (canon_key(sh), canon_key(th))}} for x in recv]},
+                                  "expected": "second request signed over its own method/path/body: %s" % w2})
 
         # ----- correspondence with the model
         mr = sign_model.get(ci)
